@@ -39,6 +39,12 @@ CHECKS = {
  'C16': dict(level='exploration', tech='runtime monitor: icontract post-conditions on the real builder functions (geometry/mass invariants, name distinctness, scaling), deep input snapshots, and a sys.monitoring LINE budget on build_from_world as the logical clock for termination',
              text='All shipped non-BurnMan configurations plus randomised 1-6 layer configurations (radius/thickness/density/mass/mass-fraction variants), scale factors in [0.1,10] and derivation chains of length 1-6 mixing the three builders, with and without names, incl. names containing _variant.',
              note='Termination is decided as bounded progress (10^4 line events per call); contract evaluation counters and line-event counters must be non-zero or the run is inconclusive. BurnMan worlds cannot be built here (package absent).', ref='4/C16'),
+ 'C01': dict(level='exploration', tech='runtime monitor: recorder on radial_solver with the Kelvin/Love closed form as oracle and a two-probe convergence test (100x tighter tolerance and a different integrator) deciding which runs are decisive',
+             text='Randomised exploration over radius, density, complex rigidity, l=2..10, three integrators, both starting-condition families, static/dynamic, incompressible and near-incompressible compressible sets, both nondimensionalize values, tolerances and grid sizes; only converged successful solves are decisive, failures and unconverged runs are counted as inconclusive.',
+             note='Budget 200 rtol + 10 delta_conv + 5 eps_dyn + 20 max(|mu|,rho g R)/K on the O(1) scale of k,h,l. Generator is biased to the region where the solver succeeds (about half of the cases are decisive). One open known finding (Kamata dynamic-incompressible degeneracy).', ref='4/C01'),
+ 'C02': dict(level='exploration', tech='runtime monitor: observer of RadialSolverSolution.result at the surface and at every layer boundary against the prescribed boundary vectors and the interface relations',
+             text='Quick: every 1-2 layer stack over {solid,liquid}x{static,dynamic}x{compressible,incompressible} (no dynamic-liquid top) plus 380 sampled 3-5 layer stacks; thorough: every 1-3 layer stack with two material profiles plus 1200 sampled 4-5 layer stacks; random l, frequency and ordered solve_for tuples incl. duplicates; decisive only for converged successful solves.',
+             note='Tolerances 1e-5 relative to the natural stress / potential scales (ill-conditioned deep stacks reach 1e-6; real defects are O(1e-3..1)). y7 of static liquid layers is not exposed, so only y5 is checked there; dynamic-liquid top layers crash and belong to C06.', ref='4/C02'),
 }
 NA = []
 def main():
